@@ -37,10 +37,10 @@ CONSTANTS Clients,    \* API client goroutines (strings)
           MaxCalls,   \* calls per client
           Locked, StepGuard, NilGuard
 
-ING == <<"ingesters", "">>
-CAN == <<"cancels", "">>
-STATE(i) == <<"state", i>>
-REP(i) == <<"report", i>>
+VING == <<"ingesters", "">>
+VCAN == <<"cancels", "">>
+VSTATE(i) == <<"state", i>>
+VREP(i) == <<"report", i>>
 MU == "mu"
 LockIds == {MU} \cup Ids          \* the per-session mutex is named by the session id
 
@@ -66,11 +66,9 @@ LockIds == {MU} \cup Ids          \* the per-session mutex is named by the sessi
     NoConflict_state == ~ConflictOn({"state"})
     NoConflict_report == ~ConflictOn({"report"})
     NoNilCancel == ~nilcall
-    MutexOK == \A x, y \in acc : (x[1] # y[1]) => TRUE
+    \* sanity of the model itself: a lock has one owner, accesses made under Locked carry their lock
+    LockDiscipline == Locked => \A x \in acc : x[4] # {} /\ \A k \in x[4] : lock[k] = x[1]
   }
-  macro Lock(k)   { if (Locked) { await lock[k] = "free"; lock[k] := self } }
-  macro Unlock(k) { if (Locked) { lock[k] := "free" } }
-  macro Begin(v, kind) { acc := acc \cup {<<self, v, kind, IF Locked THEN Held(self) \cup {k_} ELSE {}>>} }
 
   process (client \in Clients)
     variables calls = 0, op = "", id = "", found = FALSE, st = "";
@@ -83,30 +81,30 @@ LockIds == {MU} \cup Ids          \* the per-session mutex is named by the sessi
    cr_cas:  with (i \in Ids \ alloc) { id := i; alloc := alloc \cup {i} };          \* cm.nr CAS loop
    cr_iw:   await (~Locked \/ lock[MU] = "free");                                   \* NewCmafIngester: cm.ingesters[nr] = &c
             lock := IF Locked THEN [lock EXCEPT ![MU] = self] ELSE lock;
-            acc := acc \cup {<<self, ING, "w", IF Locked THEN {MU} ELSE {}>>};
+            acc := acc \cup {<<self, VING, "w", IF Locked THEN {MU} ELSE {}>>};
    cr_iw2:  acc := {a \in acc : a[1] # self}; ingesters := ingesters \cup {id};
             lock := IF Locked THEN [lock EXCEPT ![MU] = "free"] ELSE lock;
    cr_ir:   await (~Locked \/ lock[MU] = "free");                                   \* startIngester: c, ok := cm.ingesters[nr]
             lock := IF Locked THEN [lock EXCEPT ![MU] = self] ELSE lock;
-            acc := acc \cup {<<self, ING, "r", IF Locked THEN {MU} ELSE {}>>};
+            acc := acc \cup {<<self, VING, "r", IF Locked THEN {MU} ELSE {}>>};
    cr_ir2:  acc := {a \in acc : a[1] # self};
             lock := IF Locked THEN [lock EXCEPT ![MU] = "free"] ELSE lock;
    cr_cw:   await (~Locked \/ lock[MU] = "free");                                   \* cm.cancels[nr] = cancel
             lock := IF Locked THEN [lock EXCEPT ![MU] = self] ELSE lock;
-            acc := acc \cup {<<self, CAN, "w", IF Locked THEN {MU} ELSE {}>>};
+            acc := acc \cup {<<self, VCAN, "w", IF Locked THEN {MU} ELSE {}>>};
    cr_cw2:  acc := {a \in acc : a[1] # self}; cancels := cancels \cup {id};
             lock := IF Locked THEN [lock EXCEPT ![MU] = "free"] ELSE lock;
    cr_go:   started := started \cup {id};                                           \* go c.start(ctx)
          } else {
    lk:      await (~Locked \/ lock[MU] = "free");                                   \* ing, ok := s.cmafMgr.ingesters[id]
             lock := IF Locked THEN [lock EXCEPT ![MU] = self] ELSE lock;
-            acc := acc \cup {<<self, ING, "r", IF Locked THEN {MU} ELSE {}>>};
+            acc := acc \cup {<<self, VING, "r", IF Locked THEN {MU} ELSE {}>>};
    lk2:     acc := {a \in acc : a[1] # self}; found := id \in ingesters;
             lock := IF Locked THEN [lock EXCEPT ![MU] = "free"] ELSE lock;
    disp:    if (found /\ op = "get") {
    g_r:        await (~Locked \/ lock[id] = "free");                                \* strings.Join(ing.report, "\n")
                lock := IF Locked THEN [lock EXCEPT ![id] = self] ELSE lock;
-               acc := acc \cup {<<self, REP(id), "r", IF Locked THEN {id} ELSE {}>>};
+               acc := acc \cup {<<self, VREP(id), "r", IF Locked THEN {id} ELSE {}>>};
    g_r2:       acc := {a \in acc : a[1] # self};
                lock := IF Locked THEN [lock EXCEPT ![id] = "free"] ELSE lock;
             } else if (found /\ op = "step") {
@@ -116,12 +114,12 @@ LockIds == {MU} \cup Ids          \* the per-session mutex is named by the sessi
             } else if (found /\ op = "delete") {
    d_sr:       await (~Locked \/ lock[id] = "free");                                \* if ci.state == ingesterStateRunning
                lock := IF Locked THEN [lock EXCEPT ![id] = self] ELSE lock;
-               acc := acc \cup {<<self, STATE(id), "r", IF Locked THEN {id} ELSE {}>>};
+               acc := acc \cup {<<self, VSTATE(id), "r", IF Locked THEN {id} ELSE {}>>};
    d_sr2:      acc := {a \in acc : a[1] # self}; st := state[id];
                lock := IF Locked THEN [lock EXCEPT ![id] = "free"] ELSE lock;
    d_c:        await (~Locked \/ lock[MU] = "free");                                \* s.cmafMgr.cancels[id]()
                lock := IF Locked THEN [lock EXCEPT ![MU] = self] ELSE lock;
-               acc := acc \cup {<<self, CAN, "r", IF Locked THEN {MU} ELSE {}>>};
+               acc := acc \cup {<<self, VCAN, "r", IF Locked THEN {MU} ELSE {}>>};
    d_c2:       acc := {a \in acc : a[1] # self};
                lock := IF Locked THEN [lock EXCEPT ![MU] = "free"] ELSE lock;
                if (id \in cancels) { cancelled := cancelled \cup {id} }
@@ -137,13 +135,13 @@ LockIds == {MU} \cup Ids          \* the per-session mutex is named by the sessi
    w0:    await self \in started;
    i_rw:  await (~Locked \/ lock[self] = "free");                                   \* c.report = append(c.report, "Sent init segment ..")
           lock := IF Locked THEN [lock EXCEPT ![self] = self] ELSE lock;
-          acc := acc \cup {<<self, REP(self), "w", IF Locked THEN {self} ELSE {}>>};
+          acc := acc \cup {<<self, VREP(self), "w", IF Locked THEN {self} ELSE {}>>};
    i_rw2: acc := {a \in acc : a[1] # self};
           lock := IF Locked THEN [lock EXCEPT ![self] = "free"] ELSE lock;
           either { skip } or { goto stop };                                         \* init upload failed: return
    run_w: await (~Locked \/ lock[self] = "free");                                   \* c.state = ingesterStateRunning
           lock := IF Locked THEN [lock EXCEPT ![self] = self] ELSE lock;
-          acc := acc \cup {<<self, STATE(self), "w", IF Locked THEN {self} ELSE {}>>};
+          acc := acc \cup {<<self, VSTATE(self), "w", IF Locked THEN {self} ELSE {}>>};
    run_w2: acc := {a \in acc : a[1] # self}; state[self] := "running";
           lock := IF Locked THEN [lock EXCEPT ![self] = "free"] ELSE lock;
    loop:  either { await offers[self] # {};                                         \* case <-c.nextSegTrigger
@@ -153,14 +151,384 @@ LockIds == {MU} \cup Ids          \* the per-session mutex is named by the sessi
    sent:  if (~err) { goto loop };
    e_rw:  await (~Locked \/ lock[self] = "free");                                   \* c.report = append(c.report, "Error sending ..")
           lock := IF Locked THEN [lock EXCEPT ![self] = self] ELSE lock;
-          acc := acc \cup {<<self, REP(self), "w", IF Locked THEN {self} ELSE {}>>};
+          acc := acc \cup {<<self, VREP(self), "w", IF Locked THEN {self} ELSE {}>>};
    e_rw2: acc := {a \in acc : a[1] # self};
           lock := IF Locked THEN [lock EXCEPT ![self] = "free"] ELSE lock;
    stop:  await (~Locked \/ lock[self] = "free");                                   \* defer: c.state = ingesterStateStopped
           lock := IF Locked THEN [lock EXCEPT ![self] = self] ELSE lock;
-          acc := acc \cup {<<self, STATE(self), "w", IF Locked THEN {self} ELSE {}>>};
+          acc := acc \cup {<<self, VSTATE(self), "w", IF Locked THEN {self} ELSE {}>>};
    stop2: acc := {a \in acc : a[1] # self}; state[self] := "stopped";
           lock := IF Locked THEN [lock EXCEPT ![self] = "free"] ELSE lock;
   }
 } *)
+\* BEGIN TRANSLATION
+VARIABLES pc, alloc, ingesters, cancels, state, started, cancelled, offers, 
+          lock, acc, nilcall
+
+(* define statement *)
+Held(p) == {k \in LockIds : lock[k] = p}
+ConflictOn(V) == \E x, y \in acc : /\ x[1] # y[1] /\ x[2] = y[2] /\ x[2][1] \in V
+                                   /\ (x[3] = "w" \/ y[3] = "w")
+                                   /\ x[4] \cap y[4] = {}
+NoConflict == ~ConflictOn({"ingesters", "cancels", "state", "report"})
+NoConflict_ingesters == ~ConflictOn({"ingesters"})
+NoConflict_cancels == ~ConflictOn({"cancels"})
+NoConflict_state == ~ConflictOn({"state"})
+NoConflict_report == ~ConflictOn({"report"})
+NoNilCancel == ~nilcall
+
+LockDiscipline == Locked => \A x \in acc : x[4] # {} /\ \A k \in x[4] : lock[k] = x[1]
+
+VARIABLES calls, op, id, found, st, err
+
+vars == << pc, alloc, ingesters, cancels, state, started, cancelled, offers, 
+           lock, acc, nilcall, calls, op, id, found, st, err >>
+
+ProcSet == (Clients) \cup (Ids)
+
+Init == (* Global variables *)
+        /\ alloc = {}
+        /\ ingesters = {}
+        /\ cancels = {}
+        /\ state = [i \in Ids |-> "notstarted"]
+        /\ started = {}
+        /\ cancelled = {}
+        /\ offers = [i \in Ids |-> {}]
+        /\ lock = [k \in LockIds |-> "free"]
+        /\ acc = {}
+        /\ nilcall = FALSE
+        (* Process client *)
+        /\ calls = [self \in Clients |-> 0]
+        /\ op = [self \in Clients |-> ""]
+        /\ id = [self \in Clients |-> ""]
+        /\ found = [self \in Clients |-> FALSE]
+        /\ st = [self \in Clients |-> ""]
+        (* Process sess *)
+        /\ err = [self \in Ids |-> FALSE]
+        /\ pc = [self \in ProcSet |-> CASE self \in Clients -> "c0"
+                                        [] self \in Ids -> "w0"]
+
+c0(self) == /\ pc[self] = "c0"
+            /\ IF calls[self] < MaxCalls
+                  THEN /\ calls' = [calls EXCEPT ![self] = calls[self] + 1]
+                       /\ \/ /\ alloc # Ids
+                             /\ op' = [op EXCEPT ![self] = "create"]
+                             /\ id' = id
+                          \/ /\ \E o \in {"get", "step", "delete"}:
+                                  \E i \in Ids:
+                                    /\ op' = [op EXCEPT ![self] = o]
+                                    /\ id' = [id EXCEPT ![self] = i]
+                       /\ pc' = [pc EXCEPT ![self] = "c1"]
+                  ELSE /\ pc' = [pc EXCEPT ![self] = "Done"]
+                       /\ UNCHANGED << calls, op, id >>
+            /\ UNCHANGED << alloc, ingesters, cancels, state, started, 
+                            cancelled, offers, lock, acc, nilcall, found, st, 
+                            err >>
+
+c1(self) == /\ pc[self] = "c1"
+            /\ IF op[self] = "create"
+                  THEN /\ pc' = [pc EXCEPT ![self] = "cr_cas"]
+                  ELSE /\ pc' = [pc EXCEPT ![self] = "lk"]
+            /\ UNCHANGED << alloc, ingesters, cancels, state, started, 
+                            cancelled, offers, lock, acc, nilcall, calls, op, 
+                            id, found, st, err >>
+
+cr_cas(self) == /\ pc[self] = "cr_cas"
+                /\ \E i \in Ids \ alloc:
+                     /\ id' = [id EXCEPT ![self] = i]
+                     /\ alloc' = (alloc \cup {i})
+                /\ pc' = [pc EXCEPT ![self] = "cr_iw"]
+                /\ UNCHANGED << ingesters, cancels, state, started, cancelled, 
+                                offers, lock, acc, nilcall, calls, op, found, 
+                                st, err >>
+
+cr_iw(self) == /\ pc[self] = "cr_iw"
+               /\ (~Locked \/ lock[MU] = "free")
+               /\ lock' = IF Locked THEN [lock EXCEPT ![MU] = self] ELSE lock
+               /\ acc' = (acc \cup {<<self, VING, "w", IF Locked THEN {MU} ELSE {}>>})
+               /\ pc' = [pc EXCEPT ![self] = "cr_iw2"]
+               /\ UNCHANGED << alloc, ingesters, cancels, state, started, 
+                               cancelled, offers, nilcall, calls, op, id, 
+                               found, st, err >>
+
+cr_iw2(self) == /\ pc[self] = "cr_iw2"
+                /\ acc' = {a \in acc : a[1] # self}
+                /\ ingesters' = (ingesters \cup {id[self]})
+                /\ lock' = IF Locked THEN [lock EXCEPT ![MU] = "free"] ELSE lock
+                /\ pc' = [pc EXCEPT ![self] = "cr_ir"]
+                /\ UNCHANGED << alloc, cancels, state, started, cancelled, 
+                                offers, nilcall, calls, op, id, found, st, err >>
+
+cr_ir(self) == /\ pc[self] = "cr_ir"
+               /\ (~Locked \/ lock[MU] = "free")
+               /\ lock' = IF Locked THEN [lock EXCEPT ![MU] = self] ELSE lock
+               /\ acc' = (acc \cup {<<self, VING, "r", IF Locked THEN {MU} ELSE {}>>})
+               /\ pc' = [pc EXCEPT ![self] = "cr_ir2"]
+               /\ UNCHANGED << alloc, ingesters, cancels, state, started, 
+                               cancelled, offers, nilcall, calls, op, id, 
+                               found, st, err >>
+
+cr_ir2(self) == /\ pc[self] = "cr_ir2"
+                /\ acc' = {a \in acc : a[1] # self}
+                /\ lock' = IF Locked THEN [lock EXCEPT ![MU] = "free"] ELSE lock
+                /\ pc' = [pc EXCEPT ![self] = "cr_cw"]
+                /\ UNCHANGED << alloc, ingesters, cancels, state, started, 
+                                cancelled, offers, nilcall, calls, op, id, 
+                                found, st, err >>
+
+cr_cw(self) == /\ pc[self] = "cr_cw"
+               /\ (~Locked \/ lock[MU] = "free")
+               /\ lock' = IF Locked THEN [lock EXCEPT ![MU] = self] ELSE lock
+               /\ acc' = (acc \cup {<<self, VCAN, "w", IF Locked THEN {MU} ELSE {}>>})
+               /\ pc' = [pc EXCEPT ![self] = "cr_cw2"]
+               /\ UNCHANGED << alloc, ingesters, cancels, state, started, 
+                               cancelled, offers, nilcall, calls, op, id, 
+                               found, st, err >>
+
+cr_cw2(self) == /\ pc[self] = "cr_cw2"
+                /\ acc' = {a \in acc : a[1] # self}
+                /\ cancels' = (cancels \cup {id[self]})
+                /\ lock' = IF Locked THEN [lock EXCEPT ![MU] = "free"] ELSE lock
+                /\ pc' = [pc EXCEPT ![self] = "cr_go"]
+                /\ UNCHANGED << alloc, ingesters, state, started, cancelled, 
+                                offers, nilcall, calls, op, id, found, st, err >>
+
+cr_go(self) == /\ pc[self] = "cr_go"
+               /\ started' = (started \cup {id[self]})
+               /\ pc' = [pc EXCEPT ![self] = "c0"]
+               /\ UNCHANGED << alloc, ingesters, cancels, state, cancelled, 
+                               offers, lock, acc, nilcall, calls, op, id, 
+                               found, st, err >>
+
+lk(self) == /\ pc[self] = "lk"
+            /\ (~Locked \/ lock[MU] = "free")
+            /\ lock' = IF Locked THEN [lock EXCEPT ![MU] = self] ELSE lock
+            /\ acc' = (acc \cup {<<self, VING, "r", IF Locked THEN {MU} ELSE {}>>})
+            /\ pc' = [pc EXCEPT ![self] = "lk2"]
+            /\ UNCHANGED << alloc, ingesters, cancels, state, started, 
+                            cancelled, offers, nilcall, calls, op, id, found, 
+                            st, err >>
+
+lk2(self) == /\ pc[self] = "lk2"
+             /\ acc' = {a \in acc : a[1] # self}
+             /\ found' = [found EXCEPT ![self] = id[self] \in ingesters]
+             /\ lock' = IF Locked THEN [lock EXCEPT ![MU] = "free"] ELSE lock
+             /\ pc' = [pc EXCEPT ![self] = "disp"]
+             /\ UNCHANGED << alloc, ingesters, cancels, state, started, 
+                             cancelled, offers, nilcall, calls, op, id, st, 
+                             err >>
+
+disp(self) == /\ pc[self] = "disp"
+              /\ IF found[self] /\ op[self] = "get"
+                    THEN /\ pc' = [pc EXCEPT ![self] = "g_r"]
+                    ELSE /\ IF found[self] /\ op[self] = "step"
+                               THEN /\ pc' = [pc EXCEPT ![self] = "s_send"]
+                               ELSE /\ IF found[self] /\ op[self] = "delete"
+                                          THEN /\ pc' = [pc EXCEPT ![self] = "d_sr"]
+                                          ELSE /\ pc' = [pc EXCEPT ![self] = "c0"]
+              /\ UNCHANGED << alloc, ingesters, cancels, state, started, 
+                              cancelled, offers, lock, acc, nilcall, calls, op, 
+                              id, found, st, err >>
+
+g_r(self) == /\ pc[self] = "g_r"
+             /\ (~Locked \/ lock[id[self]] = "free")
+             /\ lock' = IF Locked THEN [lock EXCEPT ![id[self]] = self] ELSE lock
+             /\ acc' = (acc \cup {<<self, VREP(id[self]), "r", IF Locked THEN {id[self]} ELSE {}>>})
+             /\ pc' = [pc EXCEPT ![self] = "g_r2"]
+             /\ UNCHANGED << alloc, ingesters, cancels, state, started, 
+                             cancelled, offers, nilcall, calls, op, id, found, 
+                             st, err >>
+
+g_r2(self) == /\ pc[self] = "g_r2"
+              /\ acc' = {a \in acc : a[1] # self}
+              /\ lock' = IF Locked THEN [lock EXCEPT ![id[self]] = "free"] ELSE lock
+              /\ pc' = [pc EXCEPT ![self] = "c0"]
+              /\ UNCHANGED << alloc, ingesters, cancels, state, started, 
+                              cancelled, offers, nilcall, calls, op, id, found, 
+                              st, err >>
+
+s_send(self) == /\ pc[self] = "s_send"
+                /\ offers' = [offers EXCEPT ![id[self]] = offers[id[self]] \cup {self}]
+                /\ pc' = [pc EXCEPT ![self] = "s_wait"]
+                /\ UNCHANGED << alloc, ingesters, cancels, state, started, 
+                                cancelled, lock, acc, nilcall, calls, op, id, 
+                                found, st, err >>
+
+s_wait(self) == /\ pc[self] = "s_wait"
+                /\ self \notin offers[id[self]] \/ (StepGuard /\ pc[id[self]] = "Done")
+                /\ offers' = [offers EXCEPT ![id[self]] = offers[id[self]] \ {self}]
+                /\ pc' = [pc EXCEPT ![self] = "c0"]
+                /\ UNCHANGED << alloc, ingesters, cancels, state, started, 
+                                cancelled, lock, acc, nilcall, calls, op, id, 
+                                found, st, err >>
+
+d_sr(self) == /\ pc[self] = "d_sr"
+              /\ (~Locked \/ lock[id[self]] = "free")
+              /\ lock' = IF Locked THEN [lock EXCEPT ![id[self]] = self] ELSE lock
+              /\ acc' = (acc \cup {<<self, VSTATE(id[self]), "r", IF Locked THEN {id[self]} ELSE {}>>})
+              /\ pc' = [pc EXCEPT ![self] = "d_sr2"]
+              /\ UNCHANGED << alloc, ingesters, cancels, state, started, 
+                              cancelled, offers, nilcall, calls, op, id, found, 
+                              st, err >>
+
+d_sr2(self) == /\ pc[self] = "d_sr2"
+               /\ acc' = {a \in acc : a[1] # self}
+               /\ st' = [st EXCEPT ![self] = state[id[self]]]
+               /\ lock' = IF Locked THEN [lock EXCEPT ![id[self]] = "free"] ELSE lock
+               /\ pc' = [pc EXCEPT ![self] = "d_c"]
+               /\ UNCHANGED << alloc, ingesters, cancels, state, started, 
+                               cancelled, offers, nilcall, calls, op, id, 
+                               found, err >>
+
+d_c(self) == /\ pc[self] = "d_c"
+             /\ (~Locked \/ lock[MU] = "free")
+             /\ lock' = IF Locked THEN [lock EXCEPT ![MU] = self] ELSE lock
+             /\ acc' = (acc \cup {<<self, VCAN, "r", IF Locked THEN {MU} ELSE {}>>})
+             /\ pc' = [pc EXCEPT ![self] = "d_c2"]
+             /\ UNCHANGED << alloc, ingesters, cancels, state, started, 
+                             cancelled, offers, nilcall, calls, op, id, found, 
+                             st, err >>
+
+d_c2(self) == /\ pc[self] = "d_c2"
+              /\ acc' = {a \in acc : a[1] # self}
+              /\ lock' = IF Locked THEN [lock EXCEPT ![MU] = "free"] ELSE lock
+              /\ IF id[self] \in cancels
+                    THEN /\ cancelled' = (cancelled \cup {id[self]})
+                         /\ UNCHANGED nilcall
+                    ELSE /\ IF ~NilGuard
+                               THEN /\ nilcall' = TRUE
+                               ELSE /\ TRUE
+                                    /\ UNCHANGED nilcall
+                         /\ UNCHANGED cancelled
+              /\ pc' = [pc EXCEPT ![self] = "c0"]
+              /\ UNCHANGED << alloc, ingesters, cancels, state, started, 
+                              offers, calls, op, id, found, st, err >>
+
+client(self) == c0(self) \/ c1(self) \/ cr_cas(self) \/ cr_iw(self)
+                   \/ cr_iw2(self) \/ cr_ir(self) \/ cr_ir2(self)
+                   \/ cr_cw(self) \/ cr_cw2(self) \/ cr_go(self)
+                   \/ lk(self) \/ lk2(self) \/ disp(self) \/ g_r(self)
+                   \/ g_r2(self) \/ s_send(self) \/ s_wait(self)
+                   \/ d_sr(self) \/ d_sr2(self) \/ d_c(self) \/ d_c2(self)
+
+w0(self) == /\ pc[self] = "w0"
+            /\ self \in started
+            /\ pc' = [pc EXCEPT ![self] = "i_rw"]
+            /\ UNCHANGED << alloc, ingesters, cancels, state, started, 
+                            cancelled, offers, lock, acc, nilcall, calls, op, 
+                            id, found, st, err >>
+
+i_rw(self) == /\ pc[self] = "i_rw"
+              /\ (~Locked \/ lock[self] = "free")
+              /\ lock' = IF Locked THEN [lock EXCEPT ![self] = self] ELSE lock
+              /\ acc' = (acc \cup {<<self, VREP(self), "w", IF Locked THEN {self} ELSE {}>>})
+              /\ pc' = [pc EXCEPT ![self] = "i_rw2"]
+              /\ UNCHANGED << alloc, ingesters, cancels, state, started, 
+                              cancelled, offers, nilcall, calls, op, id, found, 
+                              st, err >>
+
+i_rw2(self) == /\ pc[self] = "i_rw2"
+               /\ acc' = {a \in acc : a[1] # self}
+               /\ lock' = IF Locked THEN [lock EXCEPT ![self] = "free"] ELSE lock
+               /\ \/ /\ TRUE
+                     /\ pc' = [pc EXCEPT ![self] = "run_w"]
+                  \/ /\ pc' = [pc EXCEPT ![self] = "stop"]
+               /\ UNCHANGED << alloc, ingesters, cancels, state, started, 
+                               cancelled, offers, nilcall, calls, op, id, 
+                               found, st, err >>
+
+run_w(self) == /\ pc[self] = "run_w"
+               /\ (~Locked \/ lock[self] = "free")
+               /\ lock' = IF Locked THEN [lock EXCEPT ![self] = self] ELSE lock
+               /\ acc' = (acc \cup {<<self, VSTATE(self), "w", IF Locked THEN {self} ELSE {}>>})
+               /\ pc' = [pc EXCEPT ![self] = "run_w2"]
+               /\ UNCHANGED << alloc, ingesters, cancels, state, started, 
+                               cancelled, offers, nilcall, calls, op, id, 
+                               found, st, err >>
+
+run_w2(self) == /\ pc[self] = "run_w2"
+                /\ acc' = {a \in acc : a[1] # self}
+                /\ state' = [state EXCEPT ![self] = "running"]
+                /\ lock' = IF Locked THEN [lock EXCEPT ![self] = "free"] ELSE lock
+                /\ pc' = [pc EXCEPT ![self] = "loop"]
+                /\ UNCHANGED << alloc, ingesters, cancels, started, cancelled, 
+                                offers, nilcall, calls, op, id, found, st, err >>
+
+loop(self) == /\ pc[self] = "loop"
+              /\ \/ /\ offers[self] # {}
+                    /\ \E c \in offers[self]:
+                         offers' = [offers EXCEPT ![self] = offers[self] \ {c}]
+                    /\ \/ /\ err' = [err EXCEPT ![self] = FALSE]
+                       \/ /\ err' = [err EXCEPT ![self] = TRUE]
+                    /\ pc' = [pc EXCEPT ![self] = "sent"]
+                 \/ /\ self \in cancelled
+                    /\ pc' = [pc EXCEPT ![self] = "stop"]
+                    /\ UNCHANGED <<offers, err>>
+              /\ UNCHANGED << alloc, ingesters, cancels, state, started, 
+                              cancelled, lock, acc, nilcall, calls, op, id, 
+                              found, st >>
+
+sent(self) == /\ pc[self] = "sent"
+              /\ IF ~err[self]
+                    THEN /\ pc' = [pc EXCEPT ![self] = "loop"]
+                    ELSE /\ pc' = [pc EXCEPT ![self] = "e_rw"]
+              /\ UNCHANGED << alloc, ingesters, cancels, state, started, 
+                              cancelled, offers, lock, acc, nilcall, calls, op, 
+                              id, found, st, err >>
+
+e_rw(self) == /\ pc[self] = "e_rw"
+              /\ (~Locked \/ lock[self] = "free")
+              /\ lock' = IF Locked THEN [lock EXCEPT ![self] = self] ELSE lock
+              /\ acc' = (acc \cup {<<self, VREP(self), "w", IF Locked THEN {self} ELSE {}>>})
+              /\ pc' = [pc EXCEPT ![self] = "e_rw2"]
+              /\ UNCHANGED << alloc, ingesters, cancels, state, started, 
+                              cancelled, offers, nilcall, calls, op, id, found, 
+                              st, err >>
+
+e_rw2(self) == /\ pc[self] = "e_rw2"
+               /\ acc' = {a \in acc : a[1] # self}
+               /\ lock' = IF Locked THEN [lock EXCEPT ![self] = "free"] ELSE lock
+               /\ pc' = [pc EXCEPT ![self] = "stop"]
+               /\ UNCHANGED << alloc, ingesters, cancels, state, started, 
+                               cancelled, offers, nilcall, calls, op, id, 
+                               found, st, err >>
+
+stop(self) == /\ pc[self] = "stop"
+              /\ (~Locked \/ lock[self] = "free")
+              /\ lock' = IF Locked THEN [lock EXCEPT ![self] = self] ELSE lock
+              /\ acc' = (acc \cup {<<self, VSTATE(self), "w", IF Locked THEN {self} ELSE {}>>})
+              /\ pc' = [pc EXCEPT ![self] = "stop2"]
+              /\ UNCHANGED << alloc, ingesters, cancels, state, started, 
+                              cancelled, offers, nilcall, calls, op, id, found, 
+                              st, err >>
+
+stop2(self) == /\ pc[self] = "stop2"
+               /\ acc' = {a \in acc : a[1] # self}
+               /\ state' = [state EXCEPT ![self] = "stopped"]
+               /\ lock' = IF Locked THEN [lock EXCEPT ![self] = "free"] ELSE lock
+               /\ pc' = [pc EXCEPT ![self] = "Done"]
+               /\ UNCHANGED << alloc, ingesters, cancels, started, cancelled, 
+                               offers, nilcall, calls, op, id, found, st, err >>
+
+sess(self) == w0(self) \/ i_rw(self) \/ i_rw2(self) \/ run_w(self)
+                 \/ run_w2(self) \/ loop(self) \/ sent(self) \/ e_rw(self)
+                 \/ e_rw2(self) \/ stop(self) \/ stop2(self)
+
+(* Allow infinite stuttering to prevent deadlock on termination. *)
+Terminating == /\ \A self \in ProcSet: pc[self] = "Done"
+               /\ UNCHANGED vars
+
+Next == (\E self \in Clients: client(self))
+           \/ (\E self \in Ids: sess(self))
+           \/ Terminating
+
+Spec == Init /\ [][Next]_vars
+
+Termination == <>(\A self \in ProcSet: pc[self] = "Done")
+
+\* END TRANSLATION
+
+\* A Step call blocked on the trigger channel of a session whose goroutine has returned never returns
+\* (C16 / C08 hazard, not a clause of C07).
+StepNotStuck == \A c \in Clients : (pc[c] = "s_wait" /\ c \in offers[id[c]] /\ pc[id[c]] = "Done") => StepGuard
 =============================================================================
